@@ -20,6 +20,9 @@ Helper lemmas for `Dalek/Props/C01/Bytes51.lean`.
 No script refers to SSA numbers or to the order of the generated `let`s.
 -/
 set_option linter.unusedVariables false
+set_option linter.unusedTactic false
+set_option linter.unreachableTactic false
+set_option linter.unusedSimpArgs false
 namespace Dalek.Proofs.Bytes51
 open Dalek Dalek.IR Dalek.Model.FieldBytes Dalek.Proofs.Field51
 
@@ -230,8 +233,9 @@ set_option maxHeartbeats 4000000 in
 theorem as_bytes_fn_eq_model (a0 a1 a2 a3 a4 : Int) :
     as_bytes_fn a0 a1 a2 a3 a4 = asBytesModel51 a0 a1 a2 a3 a4 := by
   unfold as_bytes_fn asBytesModel51 pack51
-  simp only [List.cons.injEq, and_true]
-  refine ⟨?_,?_,?_,?_,?_,?_,?_,?_,?_,?_,?_,?_,?_,?_,?_,?_,?_,?_,?_,?_,?_,?_,?_,?_,?_,?_,?_,?_,?_,?_,?_,?_⟩ <;> ring_nf
+  simp only [List.cons.injEq, and_true, pow_zero, Int.ediv_one]
+  repeat' apply And.intro
+  all_goals ring_nf
 
 /-- weak reduction: limbs `< 2^51 + 2^12`, value changed by a multiple of `p` -/
 theorem reduce51_abs (a0 a1 a2 a3 a4 l0 l1 l2 l3 l4 : Int)
@@ -248,7 +252,7 @@ theorem reduce51_abs (a0 a1 a2 a3 a4 l0 l1 l2 l3 l4 : Int)
 
 /-- the arithmetic heart of the canonical reduction: `q` is the carry bit of `H + 19`, `c` the dropped carry -/
 theorem canon_abs (F H R c q : Int) (key : H + 19 = 2 ^ 255 * q + R) (rb : 0 ≤ R ∧ R < 2 ^ 255)
-    (tel : F + 2 ^ 255 * c = H + 19 * q) (Fb : 0 ≤ F ∧ F < 2 ^ 255) (Hb : 0 ≤ H ∧ H < 2 ^ 255 + 2 ^ 217)
+    (tel : F + 2 ^ 255 * c = H + 19 * q) (Fb : 0 ≤ F ∧ F < 2 ^ 255) (Hb : 0 ≤ H ∧ H < 2 ^ 255 + 2 ^ 250)
     (hq : 0 ≤ q ∧ q ≤ 1) : F = H - (2 ^ 255 - 19) * q ∧ F < 2 ^ 255 - 19 := by
   have hq' : q = 0 ∨ q = 1 := by omega
   rcases hq' with rfl | rfl
@@ -290,7 +294,7 @@ theorem canon51 (l0 l1 l2 l3 l4 q0 q1 q2 q3 q t0 t1 t2 t3 t4 f0 f1 f2 f3 f4 : In
       = l0 + 2 ^ 51 * l1 + 2 ^ 102 * l2 + 2 ^ 153 * l3 + 2 ^ 204 * l4 + 19 * q := by omega
   have fb : (0 ≤ f0 ∧ f0 < 2 ^ 51) ∧ (0 ≤ f1 ∧ f1 < 2 ^ 51) ∧ (0 ≤ f2 ∧ f2 < 2 ^ 51) ∧ (0 ≤ f3 ∧ f3 < 2 ^ 51) ∧
     (0 ≤ f4 ∧ f4 < 2 ^ 51) := by omega
-  have hb : l0 + 2 ^ 51 * l1 + 2 ^ 102 * l2 + 2 ^ 153 * l3 + 2 ^ 204 * l4 < 2 ^ 255 + 2 ^ 217 := by omega
+  have hb : l0 + 2 ^ 51 * l1 + 2 ^ 102 * l2 + 2 ^ 153 * l3 + 2 ^ 204 * l4 < 2 ^ 255 + 2 ^ 250 := by omega
   have Hb : 0 ≤ l0 + 2 ^ 51 * l1 + 2 ^ 102 * l2 + 2 ^ 153 * l3 + 2 ^ 204 * l4 := by omega
   have Fb : 0 ≤ f0 + 2 ^ 51 * f1 + 2 ^ 102 * f2 + 2 ^ 153 * f3 + 2 ^ 204 * f4 ∧
       f0 + 2 ^ 51 * f1 + 2 ^ 102 * f2 + 2 ^ 153 * f3 + 2 ^ 204 * f4 < 2 ^ 255 := by omega
